@@ -342,6 +342,8 @@ structure Cur where
   small : Option Bits := none  -- `den` as a list, for the cross-check of `DenF`
   seekLimit : Nat := 0         -- seeks to 0..seekLimit must be accepted
   unalignedView : Bool := false  -- byte view (IOReadSeeker) of a bit string whose length is not a byte multiple
+  endAt : Option Nat := none     -- top SectionReader: SeekBits(o, end) is relative to the NOMINAL end bitLimit-bitBase
+                                 -- (sectiontreader.go:52), which for an overhanging section lies beyond the clamped data
 
 def mkCur (s : Rd) : Cur :=
   match s with
@@ -349,7 +351,8 @@ def mkCur (s : Rd) : Cur :=
                     small := if (denF r).len ≤ 4096 then some (den r) else none }
   | .sect .. | .multi .. | .zero .. | .ioBits .. =>
     { bit := true, d := denF s, dB := #[], small := if (denF s).len ≤ 4096 then some (den s) else none,
-      seekLimit := (denF s).len }
+      seekLimit := (denF s).len,
+      endAt := match s with | .sect _ base _ limit => some (limit - base) | _ => none }
   | .ioBytes r .. =>
     -- a byte view of a bit string whose length is not a byte multiple: the padded last byte is not seekable
     let a := denByF s
@@ -435,7 +438,7 @@ def checkOp (c : Cur) (op : DOp) (o : Obs) : PV × Cur :=
         else checkBitRead c c.pos n got data (if e == "ok" then "ok" else e)
       (pv, { c with pos := c.pos + got, rem := c.rem.map (· - got.toNat) })
     | .sk off w =>
-      let target := whenceBase w c.pos c.d.len + off
+      let target := whenceBase w c.pos (match w, c.endAt with | .end_, some e => e | _, _ => c.d.len) + off
       if e == "ok" then
         if k != target then (.fail s!"seek reported {k}, expected {target}", { c with pos := k })
         else if k < 0 then (.fail s!"seek to negative position {k} accepted", { c with pos := k })
